@@ -228,6 +228,7 @@ func Main(e Engine) {
 	flag.Parse()
 	dumpDigests = *dumpDig
 	Scratch = *scratch
+	os.MkdirAll(Scratch, 0777)
 	Tier = *tier
 	if *replay != "" {
 		os.Exit(doReplay(e, *replay))
